@@ -3,7 +3,7 @@ import json, os, re
 
 class Body:
     __slots__ = ("j", "crate", "def_", "key", "kind", "blocks", "locals", "types", "parent",
-                 "root", "impl", "name", "span", "arg_count", "debug", "_cache", "facts")
+                 "root", "impl", "name", "span", "arg_count", "debug", "_cache", "facts", "inlined_from")
     def __init__(self, j, crate, facts):
         self.j = j; self.crate = crate; self.facts = facts
         self.def_ = j["def"]; self.key = j["key"]; self.kind = j["kind"]
